@@ -353,6 +353,44 @@ func ruleGLOB(w *World, r *Report, o globOpts) {
 		default:
 			r.ok("GLOB", key+":lists", w.pos(fn.Pos()), "lists the directory with "+lists+" (its error is subject to ERRFLOW)")
 		}
+		// completeness: the loop that collects the matches runs over the whole listing - it is left
+		// only at its head (listing exhausted) or towards a return of a non-nil error
+		if o.complete {
+			loops := naturalLoops(fn)
+			for _, b := range fn.Blocks {
+				for _, in := range b.Instrs {
+					c, ok := in.(*ssa.Call)
+					if !ok || isBuiltinCall(c, "append") == nil {
+						continue
+					}
+					l := innermostLoop(loops, b)
+					if l == nil {
+						continue
+					}
+					k := key + ":whole-listing"
+					bad := ""
+					for lb := range l.body {
+						if lb == l.head {
+							continue
+						}
+						for _, s := range lb.Succs {
+							if l.body[s] {
+								continue
+							}
+							if ret, ok := s.Instrs[len(s.Instrs)-1].(*ssa.Return); ok && len(ret.Results) > 0 && definitelyNonNilError(ret.Results[len(ret.Results)-1]) {
+								continue
+							}
+							bad = w.ipos(lb.Instrs[len(lb.Instrs)-1])
+						}
+					}
+					if bad != "" {
+						r.bad("GLOB", k, bad, "the loop that collects the matching directory entries can be left before the listing is exhausted (other than by returning an error): entries after that point are never looked at, so not every volume file beside the index file is found")
+					} else {
+						r.ok("GLOB", k, w.ipos(c), "the collecting loop is left only when the listing is exhausted or with an error")
+					}
+				}
+			}
+		}
 		// completeness: the append of a match may depend only on the name tests
 		for _, b := range fn.Blocks {
 			if !o.complete {
